@@ -731,12 +731,12 @@ Proof.
   unfold import.
   assert (H : forall g0, arena_ok (gr_arena g0) = true -> exists g1,
             fold_left (fun acc n => do g <- acc; let '(name, meta, bs) := n in
-                                    build_note g (key_from_file_name name) meta bs) notes (Ok g0) = Ok g1 /\
+                                    build_note g (key_name name) meta bs) notes (Ok g0) = Ok g1 /\
             arena_ok (gr_arena g1) = true).
   { induction notes as [|[[name meta] bs] l IH]; intros g0 H0; cbn [fold_left].
     - eexists. split; [reflexivity | exact H0].
     - cbn [bind]. unfold build_note at 2.
-      destruct (build_document_wf (gr_arena g0) (key_from_file_name name) bs H0) as (st & H & O & _).
+      destruct (build_document_wf (gr_arena g0) (key_name name) bs H0) as (st & H & O & _).
       rewrite H. cbn [bind]. apply IH. exact O. }
   destruct (H empty_graph eq_refl) as (g1 & H1 & O1). rewrite H1. cbn [bind]. eexists. split; [reflexivity|].
   assert (Hr : forall (ks : list (string * nat)) g, gr_arena (fold_left (fun g kv => refresh_title g (fst kv)) ks g) = gr_arena g).
